@@ -1,5 +1,7 @@
 // Package vsync replaces "sync" in instrumented library files (engine E3).
-// Acquire-like operations are scheduling points; release-like operations only record progress.
+// Every operation another thread can observe the effect of is a scheduling point (lock
+// acquisition, waits, sync.Map reads AND writes); pure releases (Unlock, Done), whose only
+// observers are blocked threads, just record progress.
 package vsync
 
 import "github.com/TheManticoreProject/Manticore/zz_verif/vrt"
@@ -120,6 +122,11 @@ func (m *Map) Load(key any) (any, bool) {
 	return v, ok
 }
 func (m *Map) Store(key, value any) {
+	vrt.Op(nil, 0, "Map.Store")
+	m.store(key, value)
+}
+
+func (m *Map) store(key, value any) {
 	m.init()
 	if _, ok := m.vals[key]; !ok {
 		m.keys = append(m.keys, key)
@@ -133,7 +140,7 @@ func (m *Map) LoadOrStore(key, value any) (any, bool) {
 	if v, ok := m.vals[key]; ok {
 		return v, true
 	}
-	m.Store(key, value)
+	m.store(key, value)
 	return value, false
 }
 func (m *Map) LoadAndDelete(key any) (any, bool) {
@@ -141,11 +148,16 @@ func (m *Map) LoadAndDelete(key any) (any, bool) {
 	m.init()
 	v, ok := m.vals[key]
 	if ok {
-		m.Delete(key)
+		m.del(key)
 	}
 	return v, ok
 }
 func (m *Map) Delete(key any) {
+	vrt.Op(nil, 0, "Map.Delete")
+	m.del(key)
+}
+
+func (m *Map) del(key any) {
 	m.init()
 	if _, ok := m.vals[key]; ok {
 		delete(m.vals, key)
@@ -162,7 +174,7 @@ func (m *Map) Swap(key, value any) (any, bool) {
 	vrt.Op(nil, 0, "Map.Swap")
 	m.init()
 	v, ok := m.vals[key]
-	m.Store(key, value)
+	m.store(key, value)
 	return v, ok
 }
 func (m *Map) CompareAndSwap(key, old, new any) bool {
@@ -179,7 +191,7 @@ func (m *Map) CompareAndDelete(key, old any) bool {
 	vrt.Op(nil, 0, "Map.CompareAndDelete")
 	m.init()
 	if v, ok := m.vals[key]; ok && v == old {
-		m.Delete(key)
+		m.del(key)
 		return true
 	}
 	return false
@@ -199,6 +211,7 @@ func (m *Map) Range(f func(key, value any) bool) {
 	}
 }
 func (m *Map) Clear() {
+	vrt.Op(nil, 0, "Map.Clear")
 	m.keys = nil
 	m.vals = nil
 	vrt.Progress()
